@@ -126,6 +126,16 @@ func (s *RegionStorage) SaveRegion(region *metapb.Region) error {
 	return nil
 }
 
+// Remove deletes the key from the region storage. A write of the same key
+// that is still pending in the batch is dropped as well, otherwise the next
+// flush would bring the deleted region back.
+func (s *RegionStorage) Remove(key string) error {
+	s.mu.Lock()
+	defer s.mu.Unlock()
+	delete(s.batchRegions, key)
+	return s.LeveldbKV.Remove(key)
+}
+
 func deleteRegion(kv kv.Base, region *metapb.Region) error {
 	return kv.Remove(regionPath(region.GetId()))
 }
